@@ -44,7 +44,7 @@ SPECS = {
                         extra={'window': ['hann', 'rectangular'], 'lag': [-1, 4]}),
     'pcorrelogram': dict(ctor=lambda d: dict(args=(d,), kw=dict(lag=4)),
                          ctor_attr={'sampling': 'sampling', 'window': 'window', 'NFFT': 'NFFT', 'scale_by_freq': 'scale_by_freq', 'detrend': 'detrend', 'lag': 'lag'},
-                         extra={'window': ['hamming', 'rectangular'], 'lag': [4, 6]}),
+                         extra={'window': ['hamming', 'rectangular'], 'lag': [4, 6, 10]}),
     'pburg': dict(ctor=lambda d: dict(args=(d, 2), kw={}),
                   ctor_attr={'sampling': 'sampling', 'NFFT': 'NFFT', 'scale_by_freq': 'scale_by_freq', 'ar_order': 'order'},
                   extra={'ar_order': [2, 4]}),
